@@ -17,6 +17,7 @@ import Midgard.Proofs.Rinex3ObsPost
 import Midgard.Proofs.Rinex3ObsHeader
 import Midgard.Spec.Rinex2ObsFile
 import Midgard.Proofs.Rinex2ObsEpoch
+import Midgard.Proofs.Rinex2ObsFx
 
 namespace Midgard.Props.C11
 open Midgard.Text Midgard.FixedCol Midgard.ChainParser Midgard.RinexObs Midgard.Decimal
@@ -588,6 +589,38 @@ theorem sats_list2 (sats : List Str) (ws : Str) (hs : ∀ s ∈ sats, Sat3 s) (h
     satsOf (sats.flatten ++ ws) = .ok (sats.map normSat) :=
   satsOf_sats sats ws hs hb
 
+/-- **RINEX 2: from the text of an observation line to its five values.**  The fields the parser cuts from a rendered
+line with `m ≤ 5` observations (as formatted, right-stripped or filled to 80 columns; the last line of a satellite
+may be short) `_float` to the observations' value / LLI / signal strength (blank or zero = absent), followed by
+`5 - m` absent ones. -/
+theorem obs_text2 (st : Midgard.Spec.Rinex3ObsFile.Style) (c : List Midgard.Spec.Rinex3ObsFile.Obs) (hm : c.length ≤ 5)
+    (h : c.all Midgard.Spec.Rinex3ObsFile.Obs.wf = true) :
+    (fieldsWithPrefix (obsDef.values (rstrip (Midgard.Spec.Rinex3ObsFile.styled st (obsLine c)))) "obs_").mapM
+      (fun f => tripleOf f.2) = .ok (pad5 (triples c)) :=
+  obs_text_values st c hm h
+
+/-- **RINEX 2: the label heuristic on observation lines.**  A rendered, right-stripped observation line that is not all
+blank is labelled an observation line: the decimal point of the first value stands in column 11 or the first 16
+columns are blank; no letter in columns 33 and 61; a digit in column 35 is never followed by a blank or the end of the
+line (right-aligned numbers). -/
+theorem label_of_obs_line2 (c : List Midgard.Spec.Rinex3ObsFile.Obs) (h : c.all Midgard.Spec.Rinex3ObsFile.Obs.wf = true)
+    (hs : c.all obsShape = true) (hnb : rstrip (obsLine c) ≠ []) : obsLabel (rstrip (obsLine c)) = "True" :=
+  obs_label c h hs hnb
+
+/-- **RINEX 2: all rendered lines of one satellite** of a kept epoch (five observations per line, short last line,
+all-blank lines — which are labelled epoch lines and reach `_parse_observation` through `_parse_observation_epoch`)
+append exactly one row, remove the satellite from the epoch's list and clear the cache. -/
+theorem sat_lines2 (st : Midgard.Spec.Rinex3ObsFile.Style) (types : List Str) (m : Str) (e : EpochInfo) (q : Rat)
+    (hq : e.obsSec = some q) (obs : List Midgard.Spec.Rinex3ObsFile.Obs) (hl : types.length = obs.length) (hpos : obs ≠ [])
+    (hwf : obs.all Midgard.Spec.Rinex3ObsFile.Obs.wf = true) (hsh : obs.all obsShape = true)
+    (s : State) (he : s.cache.epoch = some e) (sat : Str) (rest : List Str) (hs : s.cache.satList = some (sat :: rest))
+    (hne : sat ≠ []) (num : Int) (hnum : pyInt (sat.drop 1) = .ok num) (hc : SatCtx types m s) (h0 : Holds [] s) :
+    Midgard.Spec.Rinex2ObsFile.runObs ((chunks 5 obs.length obs).map fun c => Midgard.Spec.Rinex3ObsFile.styled st (obsLine c)) s =
+      match rowData s.data types obs e (lower m) sat num with
+      | .ok d => .ok (doneSat s d rest)
+      | .error err => .error err :=
+  sat_lines_run st types m e q hq obs hl hpos hwf hsh s he sat rest hs hne num hnum hc h0
+
 def tiny2F : Midgard.Spec.Rinex2ObsFile.File :=
   let c (t : String) (v : Option Rat) : Cell := ⟨t.toList, v⟩
   let i (t : String) (v : Int) : IntCell := ⟨t.toList, v⟩
@@ -600,14 +633,14 @@ def tiny2F : Midgard.Spec.Rinex2ObsFile.File :=
       { yy := i "18" 18, month := i "2" 2, day := i "1" 1, hour := i "0" 0, minute := i "0" 0, second := ⟨"30.0000000".toList, 30⟩,
         flag := i "0" 0, numSat := "2".toList, clk := c "" none,
         sats := [⟨"G07".toList, [o "24236245.742" (24236245742 / 1000), o "24236247.152" (24236247152 / 1000), b, b, b, b, b]⟩,
-                 ⟨" 21".toList, [o "21119353.719" (21119353719 / 1000), b, b, b, o "-1784.992" (-1784992 / 1000), o "49.300" (493 / 10), b]⟩] }],
+                 ⟨"R21".toList, [o "21119353.719" (21119353719 / 1000), b, b, b, o "-1784.992" (-1784992 / 1000), o "49.300" (493 / 10), b]⟩] }],
     style := .stripped }
 
 example : tiny2F.wf = true ∧
     (readData headerParser obsParser resetCache (Midgard.Spec.Rinex2ObsFile.fileLines tiny2F) true 0 {}).toOption =
       (Midgard.Spec.Rinex2ObsFile.expected none tiny2F).toOption ∧
     ((Midgard.Spec.Rinex2ObsFile.expected none tiny2F).toOption.map fun s => (s.data.satellite, s.data.time)) =
-      some (["G07".toList, "G21".toList], ["2018-02-01T00:00:30.0000000".toList, "2018-02-01T00:00:30.0000000".toList]) := by
+      some (["G07".toList, "R21".toList], ["2018-02-01T00:00:30.0000000".toList, "2018-02-01T00:00:30.0000000".toList]) := by
   decide +kernel
 
 end File2
@@ -646,3 +679,6 @@ end Midgard.Props.C11
 #print axioms Midgard.Props.C11.obs_lines2
 #print axioms Midgard.Props.C11.obs_line2
 #print axioms Midgard.Props.C11.sats_list2
+#print axioms Midgard.Props.C11.obs_text2
+#print axioms Midgard.Props.C11.label_of_obs_line2
+#print axioms Midgard.Props.C11.sat_lines2
